@@ -27,8 +27,8 @@ type Case struct {
 	TZ     bool              `json:"tz,omitempty"`
 	Zone   string            `json:"zone,omitempty"`
 	Entry  string            `json:"entry,omitempty"`
-	Input  string            `json:"input,omitempty"`  // raw input (may be non-UTF-8: see InputHex)
-	Hex    string            `json:"hex,omitempty"`    // hex of raw input bytes when not valid UTF-8
+	Input  string            `json:"input,omitempty"` // raw input (may be non-UTF-8: see InputHex)
+	Hex    string            `json:"hex,omitempty"`   // hex of raw input bytes when not valid UTF-8
 	Extra  map[string]string `json:"extra,omitempty"`
 }
 
